@@ -61,7 +61,7 @@ func (w *World) PropertyFunctions(prop string) (tagged []string, all []string) {
 	taggedProto := map[string]bool{}
 	for _, c := range w.CS.Order {
 		if c.Kind == "stream" || c.Kind == "protocol" {
-			for _, cl := range c.Requires {
+			for _, cl := range append(append([]*Clause{}, c.Requires...), c.Ensures...) {
 				for _, p := range cl.Props {
 					if p == prop {
 						taggedProto[strings.TrimPrefix(strings.TrimPrefix(c.Key, "stream."), "protocol.")] = true
@@ -74,7 +74,7 @@ func (w *World) PropertyFunctions(prop string) (tagged []string, all []string) {
 		if c.Kind != "func" && c.Kind != "closure" {
 			continue
 		}
-		if taggedProto[c.Yields] {
+		if taggedProto[c.Yields] || (c.Implements != "" && taggedProto[c.Implements]) {
 			tag[c.Key] = true
 		}
 		for _, p := range c.ParamProto {
